@@ -195,6 +195,7 @@ class C11(World):
         "scratch disk: per-run directory under /dev/shm holding producer-written JSON files and exports",
     ]
     fault_kinds = ["abort", "natural_failure", "clock_jump", "timing_on"]
+    state_abstraction = "(sorted multiset of problem indices analysed so far, set of shared input objects already used, whether an abort has happened, timing switch, number of wrappers)"
     rule = (
         "each run = one generated history (3-25 operations) issued by 1-3 interleaved simulated callers in one process: "
         "service calls on corpus / perturbed / synthetic / invalid problems passed as shared dict, copied dict, fresh model or the "
@@ -282,6 +283,7 @@ class C11(World):
         names = NAMES[: swarm["names"]]
         steps = []
         n_wr = 0
+        hp_calls = 0
         for i in range(swarm["length"]):
             c = sched.randrange(swarm["clients"])
             cand = [("svc", 6.0), ("clock", 10 * swarm["p_clock"]), ("mutate_own_dict", 0.35), ("mutate_result", 0.3)]
@@ -291,8 +293,18 @@ class C11(World):
                     cand += [("wtarget", 1.5 * swarm["wrappers"]), ("wexport", 0.7 * swarm["wrappers"])]
             op = ops.choices([k for k, _ in cand], [w for _, w in cand])[0]
             p = args.choice(owned[c])
+            is_hp = probs[p]["src"] == "invalid:hp_targeting"
+            if is_hp:
+                hp_calls += 1
+                if hp_calls > 3:
+                    # heat-pump-targeting calls run for seconds: at most three of them per history (bounded run time)
+                    others = [q for q in owned[c] if probs[q]["src"] != "invalid:hp_targeting"]
+                    if others:
+                        p, is_hp = args.choice(others), False
+                    else:
+                        op = "clock"
             abort = None
-            if args.random() < swarm["p_abort"]:
+            if args.random() < swarm["p_abort"] and not is_hp:
                 # half uniform over the call; the rest near its ends (set-up / restore-at-the-end code is where an abort leaves state behind)
                 x = args.random()
                 abort = round(args.random() if x < 0.5 else (0.9 + 0.1 * args.random() if x < 0.8 else 0.1 * args.random()), 4)
